@@ -14,7 +14,11 @@ SOURCE cells of that row:
     no cell is filled in any language (unlabelled choices are legitimate input, pyxform only warns): such a row must
     show nothing ('-' or no value; media: no value) to every language -- never a sibling row's text. A list is looked
     at wherever it is rendered: its secondary instance (item -> itextId -> translation/text/value, or inline
-    <label>) and the inline <item>s of every search() select that uses it;
+    <label>), the inline <item>s of every search() select that uses it, and -- per select control that offers it
+    through an <itemset> (plain, choice_filter, randomize(), in groups / repeats, next to other selects on the same
+    list) -- what that control's own <label ref> designates on each <item> (jr:itext(child) -> the child's text ->
+    the language's translation and media forms; a child path -> its inline text): an instance and itext that are
+    right do not help a user whose select does not point at them;
   * inline (non-itext) text is shown to every language, which is only legitimate when the row has nothing but the
     unsuffixed cell for that kind;
   * languages checked = all translations of the form + every language written in the row + the default language
@@ -133,6 +137,46 @@ def _attr_ref_or_inline(v):
     if ids and v.strip().startswith("jr:itext("):
         return ("ref", ids[0])
     return ("inline", v)
+
+
+_CHILD_PATH = r"(?:\./)?([A-Za-z_][\w.\-]*)"
+_NODESET = re.compile(r"^\s*(?:randomize\(\s*)?instance\(\s*'([^']+)'\s*\)/root/item(?![\w.\-/])")
+
+
+def _itemset_refs(ctl):
+    """(instance id, value ref, label ref, nodeset) of a select control that offers the items of an internal
+    secondary instance through an <itemset>; None for anything else (inline items, selects from previous answers,
+    nodesets this reader does not model)."""
+    its = ctl.find(f"{XF}itemset")
+    if its is None:
+        return None
+    m = _NODESET.match(its.get("nodeset") or "")
+    val, lab = its.find(f"{XF}value"), its.find(f"{XF}label")
+    if m is None or val is None or lab is None or val.get("ref") is None or lab.get("ref") is None:
+        return None
+    return (m.group(1), val.get("ref").strip(), lab.get("ref").strip(), its.get("nodeset"))
+
+
+def _item_child(item, ref):
+    m = re.fullmatch(_CHILD_PATH, ref)
+    return item.find(f"{XF}{m.group(1)}") if m else None
+
+
+def _resolve_on_item(item, label_ref):
+    """What the itemset's label ref designates for one <item>: ('ref', itext id, None) | ('inline', text) |
+    ('absent',) when the item has no such child; None when the ref is not a child path / jr:itext(child path)."""
+    m = re.fullmatch(r"jr:itext\(\s*" + _CHILD_PATH + r"\s*\)", label_ref)
+    if m:
+        c = item.find(f"{XF}{m.group(1)}")
+        return ("absent",) if c is None else ("ref", c.text or "", None)
+    ids = corpus.literal_itext_ids(label_ref)
+    if ids and label_ref.startswith("jr:itext("):
+        return ("ref", ids[0], None)
+    m = re.fullmatch(_CHILD_PATH, label_ref)
+    if m:
+        c = item.find(f"{XF}{m.group(1)}")
+        return ("absent",) if c is None else ("inline", corpus.flatten_value(c))
+    return None
 
 
 def _compare(out, sheet, kind, who, u, ex, observed, it, langs_all, d, order_flag):
@@ -308,19 +352,47 @@ def check(case, res, ctx):
                 ln = next((t for t in toks[1:] if t in lists), None)
                 if ln is not None:
                     inline.setdefault(ln, []).append((f" as shown by survey row {el['row'] + 2} ({el['name']})", items))
+        # lists rendered through an <itemset> (plain, choice_filter, randomize(), in groups/repeats, ...): what the
+        # user of a language sees for a choice is what the CONTROL's <label ref> resolves to on the <item> of the
+        # secondary instance its nodeset names (jr:itext(<child>) -> that child's text -> the language's
+        # translation; a plain child path -> that child's inline text, the same for every language).
+        via_itemset = {}
+        for el in elements:
+            ctl = controls.get(el["path"])
+            if ctl is None or el["kind"] != "question" or names_seen[el["path"]] > 1:
+                continue
+            refs = _itemset_refs(ctl)
+            toks = el["type"].split()
+            if refs is None or len(toks) < 2:
+                continue
+            ln = next((t for t in toks[1:] if t in lists), None)
+            if ln is None or refs[0] != ln or ln not in inst:
+                continue  # which list a select offers is C09's business; only the texts of ITS list are looked at
+            via_itemset.setdefault(ln, []).append(
+                (f" as shown by survey row {el['row'] + 2} ({el['name']}: itemset {refs[3]!r}, label ref {refs[2]!r})",
+                 refs))
         for ln, rows in lists.items():
             renderings = []
             if ln in inst:
-                renderings.append(("instance", "", inst[ln].findall(f"{XF}root/{XF}item")))
+                renderings.append(("instance", "", inst[ln].findall(f"{XF}root/{XF}item"), None))
             for where, items in inline.get(ln, []):
-                renderings.append(("inline", where, items))
+                renderings.append(("inline", where, items, None))
+            for where, refs in via_itemset.get(ln, []):
+                renderings.append(("itemset", where, inst[ln].findall(f"{XF}root/{XF}item"), refs))
             reported = set()
-            for mode, where, items in renderings:
+            for mode, where, items, refs in renderings:
                 for pos, (ri, row) in enumerate(rows):
                     if pos >= len(items):
                         break
                     item = items[pos]
-                    if mode == "instance":
+                    if mode == "itemset":
+                        val = _item_child(item, refs[1])
+                        if val is None or (val.text or "") != row["name"]:
+                            break  # list content/order is C09's business; do not guess the pairing
+                        obs_label = _resolve_on_item(item, refs[2])
+                        if obs_label is None:
+                            break  # a label ref this reader does not evaluate
+                    elif mode == "instance":
                         nm = item.find(f"{XF}name")
                         if nm is None or (nm.text or "") != row["name"]:
                             break  # list content/order is C09's business; do not guess the pairing
@@ -765,6 +837,98 @@ def fam_choice_gaps(pairs, sizes, usages, every=1):
     return out
 
 
+# every way a survey row can offer the choices of an internal list (what the row adds to the select's cells)
+SEL_VARIANTS = {
+    "plain": {"type": "select_one cl"},
+    "multi": {"type": "select_multiple cl"},
+    "rank": {"type": "rank cl"},
+    "minimal": {"type": "select_one cl", "appearance": "minimal"},
+    "filter": {"type": "select_one cl", "choice_filter": "cf = ${t0} or ${t0} = ''"},
+    "filter-multi": {"type": "select_multiple cl", "choice_filter": "cf != 'zz'"},
+    "rand": {"type": "select_one cl", "parameters": "randomize=true"},
+    "rand-multi": {"type": "select_multiple cl", "parameters": "randomize=true"},
+    "rand-seed": {"type": "select_one cl", "parameters": "randomize=true, seed=42"},
+    "rand-seedref": {"type": "select_multiple cl", "parameters": "randomize=true seed=${n0}"},
+    "rand-false": {"type": "select_one cl", "parameters": "randomize=false"},
+    "rand-filter": {"type": "select_one cl", "parameters": "randomize=true", "choice_filter": "cf = ${t0}"},
+    "rank-rand": {"type": "rank cl", "parameters": "seed=7 randomize=true"},
+    "search": {"type": "select_one cl", "appearance": "search('f')"},
+    "search-multi": {"type": "select_multiple cl", "appearance": "minimal search('f')"},
+    "or_other": {"type": "select_one cl or_other"},
+}
+SEL_PLACEMENTS = ("top", "group", "repeat", "repeat>group")
+SEL_TRIGGERS = [(t, sparse) for t, (_c, has_sparse) in GAP_TRIGGERS.items()
+                for sparse in ((False, True) if has_sparse else (False,))]
+
+
+def _variant_form(name, variants, placement, a, b, tname, sparse, mask, idx, cfg, bystanders=False):
+    """One list `cl` (3 rows, itext trigger `tname`) offered by the given select variants, all of them at
+    `placement`; t0 / n0 are the questions the filters and seeds refer to."""
+    tcols, _ = GAP_TRIGGERS[tname]
+    cols = [(k, {None: None, "A": a, "B": b}[s]) for k, s in tcols]
+    delim = ":" if idx % 5 == 0 and ":" not in a + b else "::"
+    crows = _gap_list("cl", "c", 3, mask, cols, sparse, idx % 7, delim, (idx % 3) if tname == "ref" else None)
+    for i, r in enumerate(crows):
+        r["cf"] = "xy"[i % 2]
+    srows = [{"type": "text", "name": "t0", "label": "T"}, {"type": "integer", "name": "n0", "label": "N"}]
+    opening = {"top": [], "group": ["group"], "repeat": ["repeat"], "repeat>group": ["repeat", "group"]}[placement]
+    for j, o in enumerate(opening):
+        srows.append({"type": f"begin {o}", "name": f"w{j}", "label": f"W{j}"})
+    for j, v in enumerate(variants):
+        srows.append({"name": f"s{j}", "label": f"S{j} {v}", **SEL_VARIANTS[v]})
+    for o in reversed(opening):
+        srows.append({"type": f"end {o}"})
+    if bystanders:
+        # selects whose choices do not come from the choices sheet at all, next to the ones that do
+        srows += [{"type": "begin repeat", "name": "pr", "label": "PR"},
+                  {"type": "text", "name": "pq", "label": "PQ"}, {"type": "end repeat"},
+                  {"type": "select_one ${pq}", "name": "sp", "label": "SP"},
+                  {"type": "select_one_from_file ext.csv", "name": "sf", "label": "SF"}]
+    chdr = ["list_name", "name", *[_h(k, l, delim) for k, l in cols], "cf"]
+    if idx % 4 == 1:
+        chdr = ["cf", *[_h(k, l, delim) for k, l in reversed(cols)], "name", "list_name"]
+    cname, st, kw = cfg
+    return _mk(f"{name}[{a}|{b}|{'+'.join(variants)}|{placement}|{tname}|{'sparse' if sparse else 'full'}|"
+               f"empty={mask:03b}|{delim}|{cname}{'|bystanders' if bystanders else ''}]",
+               srows, ["type", "name", "label", "appearance", "parameters", "choice_filter"], crows, chdr, st, kw)
+
+
+def fam_select_variants(pairs, full=False):
+    """What each select SHOWS for its choices: every select variant (select_one / select_multiple / rank, plain,
+    appearance, choice_filter, randomize with and without seed, randomize=false, randomize + choice_filter,
+    search() on both select types, or_other) x every reason for a list to use itext (translated labels, unsuffixed + translated, media,
+    translated media, a ${ref} in a label) and a plain list x full / sparse per-language fills x placement (top
+    level, group, repeat, repeat > group) -- alone, and two variants sharing the list in either order (so that a
+    variant that renders correctly cannot vouch for its neighbour), with default-language configurations, header
+    delimiters, column orders and rows with nothing written rotating through the family."""
+    out, idx = [], 0
+    names = list(SEL_VARIANTS)
+    for (a, b) in pairs:
+        cfgs = _configs(a, b)
+        for tname, sparse in SEL_TRIGGERS:
+            for v in names:
+                for placement in (SEL_PLACEMENTS if full else (None,)):
+                    idx += 1
+                    pl = placement or SEL_PLACEMENTS[idx % 4]
+                    mask = (0, 0, 0b010, 0b001, 0b100, 0)[idx % 6]
+                    out.append(_variant_form("variant", (v,), pl, a, b, tname, sparse, mask, idx,
+                                             cfgs[idx % len(cfgs)], bystanders=idx % 5 == 2))
+            for i, v in enumerate(names):
+                for j, w in enumerate(names):
+                    if i == j or (not full and (i + j) % 2 == (1 if i < j else 0)):
+                        continue   # quick tier: each unordered pair once, the order alternating
+                    if v.startswith("search") != w.startswith("search"):
+                        continue   # a list used by a search() select cannot be shared with other selects
+                    idx += 1
+                    mask = (0, 0, 0, 0b010, 0b100)[idx % 5]
+                    out.append(_variant_form("variants", (v, w), SEL_PLACEMENTS[(idx // 3) % 4], a, b, tname, sparse,
+                                             mask, idx, cfgs[(idx // 2) % len(cfgs)], bystanders=idx % 7 == 3))
+            idx += 1
+            out.append(_variant_form("variants-all", tuple(n for n in names if not n.startswith("search") and n != "or_other"),
+                                     SEL_PLACEMENTS[idx % 4], a, b, tname, sparse, 0, idx, cfgs[idx % len(cfgs)]))
+    return out
+
+
 def cases(tier, seed):
     rnd = random.Random(seed * 104729 + 8)
     thorough = tier == "thorough"
@@ -781,4 +945,9 @@ def cases(tier, seed):
         out += fam_pairs([("English", "French")], ("::",))[::3]
         out += fam_random(rnd, 900)
         out += fam_choice_gaps([("English", "French")], (3, 4, 5), GAP_USAGES)
+    # appended last so that the cases above (and their share of the time budget) are unchanged
+    if thorough:
+        out += fam_select_variants([("English", "French"), ("en", "default"), ("English (en)", "x y")], full=True)
+    else:
+        out += fam_select_variants([("English", "French")])
     return out
